@@ -664,6 +664,13 @@ pub struct DedupeConfig {
     /// this flag is set automatically if `--transform` was used.
     #[arg(long)]
     pub no_check_size: bool,
+
+    /// Skip symbolic links found in place of the reported files.
+    /// Set automatically unless `--symbolic-links` was used when grouping, because only then
+    /// symbolic links are legitimate members of the groups. Otherwise a symbolic link
+    /// means the file has been replaced since grouping.
+    #[arg(skip)]
+    pub no_symbolic_links: bool,
 }
 
 #[derive(clap::Subcommand, Debug)]
